@@ -153,6 +153,40 @@ def sentinel_grammar():
     return dict(name=None, extends=None, stmts=stmts)
 
 
+def run_offsets(rec):
+    """Parses started at pos > 0, through every rule, with look-behind (Backtrack) that crosses the
+    starting position: memo entries are per (rule, absolute position), whatever the start offset."""
+    rules = {
+        'start': ('seq', [('backtrack', 1), ('ref', 'Item'), ('star', ('ref', 'Item'))]),
+        'Two': ('seq', [('backtrack', 2), ('ref', 'Item'), ('ref', 'Pair'), ('star', ('ref', 'Item'))]),
+        'Alt': ('alt', [('seq', [('ref', 'Item'), ('backtrack', 2), ('ref', 'Pair'), ('str', '!')]),
+                        ('seq', [('ref', 'Item'), ('backtrack', 2), ('ref', 'Pair'), ('star', ('ref', 'Item'))])]),
+        'Look': ('seq', [('expect', ('seq', [('backtrack', 1), ('ref', 'Pair')])), ('star', ('ref', 'Item')), ('opt', ('ref', 'Pair'))]),
+        'Pair': ('seq', [('ref', 'Item'), ('ref', 'Item')]),
+        'Item': ('re', '[ab]', False)}
+    G = gast.simple_grammar(rules)
+    b = diff.build(rec, G)
+    if b is None:
+        return
+    probe = probes.RuleEvalProbe(b.g)
+    probe.start()
+    try:
+        for t in work.inputs_for('ab', 5):
+            for entry in (None, 'Two', 'Alt', 'Look'):
+                for pos in range(0, len(t) + 1):
+                    r = diff.compare(rec, b, t, entry, pos, True, monitors=('value',), extra_case=dict(family='offsets'))
+                    if r is None:
+                        continue
+                    rec.count('offset_parses')
+                    if pos > 0:
+                        rec.nontrivial(('offsets', entry, t, pos))
+                    check_calls(rec, probe, len(rules), len(t), diff.case_dict(b, t, entry, pos, True, family='offsets', probe=True), 'offsets')
+    finally:
+        rec.count('run_calls_wrapped', probe.run_wrapped)
+        probe.stop()
+    b.cleanup()
+
+
 IGNORED_PY = '''log = []
 def note(tag):
     def f(v):
@@ -431,6 +465,9 @@ def run_shard(rec):
         run_ignored_rules(rec)
     idx += 1
     if rec.mine(idx):
+        run_offsets(rec)
+    idx += 1
+    if rec.mine(idx):
         run_metaparser(rec, quick)
     idx += 1
     if rec.mine(idx):
@@ -446,6 +483,8 @@ def replay(rec, rep):
         return run_reentrant(rec)
     if case.get('kind') == 'ignored':
         return run_ignored_rules(rec)
+    if case.get('family') == 'offsets':
+        return run_offsets(rec)
     if case.get('kind') in ('meta-probe',):
         return run_metaparser(rec, True)
     if case.get('kind') == 'excel-probe':
